@@ -242,8 +242,58 @@ pub async fn run(out: &mut Out) {
         status.abort();
     }
     drop(held);
+    log_sink_stalled(out, origin, rules_json).await;
     // TLS / QUIC / reverse-UDP listeners: clients stalled at every handshake stage, the API and a fresh client per listener
     super::stall::stall_matrix_api(out, "C14", true).await;
+}
+
+/// the access log goes to a sink that stops taking data (a FIFO whose reader never reads): the collector may stall on it,
+/// the API and new connections may not
+async fn log_sink_stalled(out: &mut Out, origin: u16, rules_json: &str) {
+    let _ = std::fs::create_dir_all("/verif/out/C14");
+    let fifo = format!("/verif/out/C14/log-{}.fifo", std::process::id());
+    let _ = std::fs::remove_file(&fifo);
+    if !std::process::Command::new("mkfifo").arg(&fifo).status().map(|s| s.success()).unwrap_or(false) {
+        out.oracle_fail("setup", "mkfifo failed");
+        return;
+    }
+    // a reader that opens the FIFO and never reads
+    use std::os::unix::fs::OpenOptionsExt;
+    let reader = std::fs::OpenOptions::new().read(true).custom_flags(0o4000 /* O_NONBLOCK */).open(&fifo);
+    let mut w = world(&[], 20);
+    {
+        let st = Arc::get_mut(&mut w.state).unwrap();
+        let mut c = crate::connectors::from_value(&serde_yaml::from_str("name: direct\ntype: direct").unwrap()).unwrap();
+        c.init().await.unwrap();
+        st.connectors.insert("direct".into(), c.into());
+        let mut log: crate::access_log::AccessLog = serde_yaml::from_str(&format!("path: {}\nformat: json", fifo)).unwrap();
+        if log.init().await.is_err() {
+            out.oracle_fail("setup", "access log on a FIFO could not be opened");
+            return;
+        }
+        Arc::get_mut(&mut st.contexts).unwrap().access_log = Some(log);
+    }
+    set_rules(&w, &[("deny".to_string(), Some("request.target.port == 1".to_string())), ("direct".to_string(), None)]).await.unwrap();
+    w.state.contexts.clone().gc_thread();
+    let http = start_listener(&w, "name: http\ntype: http").await;
+    let socks = start_listener(&w, "name: socks\ntype: socks").await;
+    let api = free_port();
+    let m: crate::metrics::MetricsServer = serde_yaml::from_str(&format!("bind: 127.0.0.1:{}\nui: null", api)).unwrap();
+    Arc::new(m).listen(w.state.clone()).await.unwrap();
+    tokio::time::sleep(std::time::Duration::from_millis(100)).await;
+    // enough ended connections to fill the pipe, the writer's buffer and the log queue
+    for _ in 0..500 {
+        if let Ok(mut s) = TcpStream::connect(("127.0.0.1", http)).await {
+            let _ = s.write_all(b"CONNECT refused.example:1 HTTP/1.1\r\nHost: x\r\n\r\n").await;
+            let mut v = vec![];
+            let _ = tokio::time::timeout(std::time::Duration::from_secs(2), s.read_to_end(&mut v)).await;
+        }
+    }
+    tokio::time::sleep(std::time::Duration::from_millis(2500)).await;
+    let _ = rules_json;
+    probe(out, "access-log-sink-stalled", api, http, socks, origin, r#"[{"target":"deny","filter":"request.target.port == 1"},{"target":"direct"}]"#).await;
+    drop(reader);
+    let _ = std::fs::remove_file(&fifo);
 }
 
 async fn probe(out: &mut Out, scenario: &str, api: u16, http: u16, socks: u16, origin: u16, rules_json: &str) {
